@@ -76,6 +76,7 @@ MEMBERS = ['C07_plane_intersection_on_both',
            'C07_flipped_set_lattice_error',
            'C07_base_vectors_outcomes',
            'C07_base_vectors_by_shape',
+           'C07_axial_planes_exact',
            'C07_hex_lattice_developed',
            'C07_develop_lattice_hex_is_tied',
            'C07_rhp_is_C03_rhp_linked',
@@ -1093,6 +1094,11 @@ def _run(res, tier, seed, proofs_ok):
                 tour = closed_tour([k for k, v in sout[1].items()
                                     if v is not None])
                 allowed = (('ok', 'EZeroDiv') if tour else ('ELoop', 'EZeroDiv'))
+                if fault in (None, 'swap12', 'swap23', 'flip_side', 'flip_two',
+                             'far_plane'):
+                    # side planes still parallel to one axis, caps across it:
+                    # C07_axial_planes_exact leaves a single outcome
+                    allowed = ('ok',) if tour else ('ELoop',)
                 got_cls = out[1] if out[0] == 'err' else 'ok'
                 res.count(f'shape: {"closed tour" if tour else "no tour"} -> '
                           + got_cls)
